@@ -223,11 +223,16 @@ def run_property(pid, tier):
     res["corpus_replays"] = ran
     for b in bad:
         violations.append({"kind": "repaired defect has returned", **b})
+    # source shape: functions of the property's files that differ from the source the model was validated against
+    import srcshape
+    res["source_changed"] = srcshape.changed(REPO, pid)
+    if res["source_changed"]:
+        log(f"source differs from the validated record in {res['source_changed'][:6]}: searching with the thorough oracle budget")
     # 1-2 lean
     lean_step(pid, cfg, res)
     # 3 correspondence
     mism = corr_step(pid, cfg, res, tier, False)
-    deep = bool(res["broken"])
+    deep = bool(res["broken"]) or bool(res["source_changed"])
     # 4 oracle
     o = oracle_step(pid, tier, deep)
     if o is not None:
@@ -284,7 +289,7 @@ def run_property(pid, tier):
         "oracle": {k: v for k, v in (res.get("oracle") or {}).items() if k != "samples"},
         "regenerated": res.get("regenerated", []), "corpus_replays": res.get("corpus_replays", []),
         "broken_obligations": res["broken"], "build_s": res.get("build_s"), "translate_s": res.get("translate_s"),
-        "leanchecker": res.get("leanchecker"),
+        "leanchecker": res.get("leanchecker"), "source_changed": res.get("source_changed", []),
         "known_findings_printed": sorted(set(known_lines)),
     }
     write_evidence(pid, tier, "proof", cov, cfg.get("assumptions", []), wall, violations=len(violations))
